@@ -11,6 +11,7 @@ import (
 	"github.com/internetarchive/Zeno/internal/pkg/log"
 	"github.com/internetarchive/Zeno/internal/pkg/reactor"
 	"github.com/internetarchive/Zeno/internal/pkg/stats"
+	"github.com/internetarchive/Zeno/internal/pkg/verifhook"
 	"github.com/internetarchive/Zeno/pkg/models"
 )
 
@@ -69,6 +70,7 @@ func Start(inputChan, sourceFinishedChan, sourceProducedChan chan *models.Item) 
 func Stop() {
 	if globalFinisher != nil {
 		logger.Debug("received stop signal")
+		verifhook.At("fin.stop.enter")
 		globalFinisher.cancel()
 		globalFinisher.wg.Wait()
 		globalFinisher = nil
@@ -90,14 +92,18 @@ func (f *finisher) worker(workerID string) {
 	for {
 		select {
 		case <-f.ctx.Done():
+			verifhook.Obs("fin.exit", workerID)
 			logger.Debug("shutting down")
 			return
 		case <-controlChans.PauseCh:
+			verifhook.At("fin.pause.ack", workerID)
 			logger.Debug("received pause event")
 			controlChans.ResumeCh <- struct{}{}
+			verifhook.At("fin.resumed", workerID)
 			logger.Debug("received resume event")
 		case seed, ok := <-f.inputCh:
 			if ok {
+				verifhook.At("fin.recv", seed)
 				if seed == nil {
 					panic("received nil seed")
 				}
@@ -115,15 +121,19 @@ func (f *finisher) worker(workerID string) {
 				// If the seed is fresh, send it to the source
 				if seed.GetStatus() == models.ItemFresh {
 					logger.Debug("fresh seed received", "seed", seed)
+					verifhook.At("fin.produce", seed)
 					f.sourceProducedCh <- seed
+					verifhook.Obs("fin.produced", seed)
 					continue
 				}
 
 				// If the seed has fresh children, send it to feedback
 				isComplete := seed.CompleteAndCheck()
+				verifhook.At("fin.checked", seed, isComplete)
 				if !isComplete {
 					logger.Debug("seed has fresh children", "seed", seed.GetShortID())
 					err := reactor.ReceiveFeedback(seed)
+					verifhook.Obs("fin.feedback.done", seed, err)
 					if err != nil && err != reactor.ErrReactorFrozen {
 						panic(err)
 					}
@@ -133,16 +143,19 @@ func (f *finisher) worker(workerID string) {
 				// If the seed has no fresh redirection or children, mark it as finished
 				logger.Debug("seed has no fresh redirection or children", "seed", seed.GetShortID())
 				err := reactor.MarkAsFinished(seed)
+				verifhook.Obs("fin.marked", seed, err)
 				if err != nil {
 					panic(err)
 				}
 
 				// Notify the source that the seed has been finished
 				// E.g.: to delete the seed in Crawl HQ
+				verifhook.At("fin.finish.send", seed)
 				if f.sourceFinishedCh != nil {
 					f.sourceFinishedCh <- seed
 				}
 
+				verifhook.Obs("fin.finish.sent", seed)
 				stats.SeedsFinishedIncr()
 				logger.Debug("seed finished", "seed", seed.GetShortID())
 			}
